@@ -24,6 +24,11 @@ type c11Case struct {
 	Kind  string   `json:"kind"`  // signal | message | messageop
 	Hist  []string `json:"hist"`  // "e:<ref>" deliver event, "a:<task>" answer task (skipped if not pending), "b:<ref>" burst: 12 non-matching events and then <ref>, back to back from one goroutine, "m:<ref>" burst of 6 x <ref>
 	Hooks bool     `json:"hooks"`
+	// PM: a (parallel-)multiple catch event reached by two tokens one after the other, with events also arriving
+	// while no token waits (C14's two-activation workload): PMDefs definitions, PMHist events (-1 = second token)
+	PMKind string `json:"pm_kind,omitempty"`
+	PMDefs int    `json:"pm_defs,omitempty"`
+	PMHist []int  `json:"pm_hist,omitempty"`
 }
 
 func c11Def(kind, ref string) gen.EventDef {
@@ -261,6 +266,30 @@ func c11Cases(tier string, seed uint64) []fw.Case {
 			cs = append(cs, fw.MkCase("prng", &c))
 		}
 	}
+	// events delivered while nothing listens at a catch event with several definitions must not count for the
+	// token that arrives later
+	for _, kind := range []string{"parallel", "plain"} {
+		for d := 2; d <= 3; d++ {
+			var rec func(p []int, held bool)
+			rec = func(p []int, held bool) {
+				if len(p) >= 2 {
+					c := c11Case{Shape: "pm", Kind: "signal", PMKind: kind, PMDefs: d, PMHist: append([]int(nil), p...)}
+					c.Name = fmt.Sprintf("pm/%s/d%d/%v", kind, d, p)
+					cs = append(cs, fw.MkCase("pm-idle", &c))
+				}
+				if len(p) == 5 {
+					return
+				}
+				for e := -1; e < d; e++ {
+					if e == -1 && !held {
+						continue
+					}
+					rec(append(p, e), held && e != -1)
+				}
+			}
+			rec(nil, true)
+		}
+	}
 	return fw.Number(cs)
 }
 
@@ -427,6 +456,20 @@ func init() {
 				v.Inconclusive("descriptor", "%v", err)
 				return v
 			}
+			if cc.Shape == "pm" {
+				tmp := fw.NewV(fw.Case{})
+				c14Process2(&c14Case{Level: "process2", Kind: cc.PMKind, Defs: cc.PMDefs, Hist: cc.PMHist}, env, tmp)
+				for _, f := range tmp.Findings {
+					if f.Status == fw.Violation {
+						v.Violate("idle-or-partial-event-effect", "pm-"+cc.PMKind, "%s", f.Msg)
+					} else {
+						v.Inconclusive(f.Rule, "%s", f.Msg)
+					}
+				}
+				v.Log = tmp.Log
+				v.Nontrivial = true
+				return v
+			}
 			c11Run(&cc, env, v)
 			ne := 0
 			for _, h := range cc.Hist {
@@ -437,7 +480,7 @@ func init() {
 			v.Nontrivial = ne > 0
 			return v
 		},
-		Rule:        "processes with catch events in sequence, in parallel branches, two listeners for one event, two tokens waiting at one catch event (together, or one after the other was released), behind a pending task, on a branch never taken, inside an embedded sub-process; signal / message / message-with-operation definitions; all histories of length <= 4 (quick: length-4 strided) and PRNG histories of length 5..8 over {matching event per listener, non-matching event, task answers}, events delivered before, while and after the listeners are armed; burst histories (every history of length <= 2 followed by 12 non-matching events and the awaited one, or 6 copies of the awaited one, handed over back to back from one goroutine without letting the instance settle: more than a node's inbox holds); after every step the pending requests must equal the reference (armed matching listeners continue exactly once, nothing else reacts) and no ConsumeEvent caller may still be blocked; non-trivial = history delivers at least one event; distinct = descriptor hash",
+		Rule:        "processes with catch events in sequence, in parallel branches, two listeners for one event, two tokens waiting at one catch event (together, or one after the other was released), behind a pending task, on a branch never taken, inside an embedded sub-process; signal / message / message-with-operation definitions; all histories of length <= 4 (quick: length-4 strided) and PRNG histories of length 5..8 over {matching event per listener, non-matching event, task answers}, events delivered before, while and after the listeners are armed; a (parallel-)multiple catch event with 2..3 definitions reached by two tokens one after the other with events also arriving while no token waits (histories <= 5); burst histories (every history of length <= 2 followed by 12 non-matching events and the awaited one, or 6 copies of the awaited one, handed over back to back from one goroutine without letting the instance settle: more than a node's inbox holds); after every step the pending requests must equal the reference (armed matching listeners continue exactly once, nothing else reacts) and no ConsumeEvent caller may still be blocked; non-trivial = history delivers at least one event; distinct = descriptor hash",
 		Assumptions: []string{"a token waiting at a catch event is one listener: two tokens at one catch event both continue on one matching event"},
 	})
 }
